@@ -25,3 +25,15 @@ CHECKS["C03"] = ("property-based testing (rapid): differential against affine ma
   "Black box: ScalarBaseMult/ScalarMult/Add/Double/IsOnCurve/GenerateKey vs ref/rsm2 over scalars of 0..40 bytes (0,1,2; n-16..n+16; 2^k; all-ones windows; c*n-2d families that make the wNAF accumulator meet +-digit*P; leading-zero padding; >32 bytes) and special point pairs; exhaustive scalar ranges around 0, n and 2n. White box (verif hook): random expression trees of Add/Sub/Mul/Square/Scalar on field elements whose Montgomery limbs sit at 0/1/max, Jacobian Add/Sub/Double/AddMixed with random Z, wNAF recoding. Exploration.",
   "Trusts ref/rsm2 (validated on GM/T 0003.5 examples, n*G=infinity). White-box part depends on the guarded hook file sm2/export_verif.go (thin wrappers).",
   "DESIGN.md §5 C03")
+CHECKS["C01"] = ("property-based testing (rapid): differential against a math/big GM/T 0003.2 reference with scripted nonce readers; catalogue of single-field perturbations; strict-DER arbiter for encodings",
+  "Sign: (r,s) equals the reference value for the independently derived nonce over keys with leading-zero d/x/y, ids absent/default/1..8191 bytes, messages to 4 KiB (64 KiB thorough), short-read entropy; completeness through Sm2Verify/Verify/PublicKey.Verify. Verify: every catalogue perturbation (message, id, key, -P, r/s out of range, r+s=0, other message, swap) rejected and equal to the reference verdict; 17 DER mutant kinds judged by a strict DER parser; constructed tuples forcing [s]G=[t]P; fresh-randomness r distinct; id >= 8192 and entropy failure give errors. Exploration.",
+  "Trusts ref/rsm2 and ref/rsm3 (validated on GM/T 0003.5 examples). Retry branches (r=0, r+k=n, s=0) need hash preimages and are not reached.",
+  "DESIGN.md §5 C01")
+CHECKS["C02"] = ("property-based testing (rapid): byte-exact differential against a GM/T 0003.4 reference with scripted nonces, round-trip, exhaustive length sweep with a clock-free termination sentinel, forged-ciphertext catalogue incl. constructive invalid-curve points",
+  "Encrypt output equals the reference for both orderings, raw and ASN.1 forms, lengths 1..1024 (4096 thorough) dense at 32k±1, nonces searched so x2/y2 have leading zeros; every length 0..130 (1024) terminates (endless counting reader panics after 64 draws); Decrypt errors for every truncation, byte substitution in C1/C2/C3, extension, wrong key, ordering confusion, order-2 points on y^2=x^3+ax+b' and arbitrary off-curve points with C2/C3 made consistent with what the implementation itself derives. Exploration.",
+  "Trusts ref/rsm2. The leading format byte (04) is treated as unspecified (not one of the property's four rejection clauses).",
+  "DESIGN.md §5 C02")
+CHECKS["C13"] = ("property-based testing (rapid): differential against a GM/T 0003.3 reference (validated on the standard's worked example incl. SB/SA) + agreement of both roles; hostile-peer catalogue",
+  "Initiator and responder called with generated long-term/ephemeral keys (leading-zero classes, shared point walked to a leading-zero coordinate), ids 0..8191 bytes, klen 1..1024: equal k, s1, s2 on both sides and equal to the reference; off-curve / zero / random peer ephemerals, V=infinity construction and ids >= 8192 bytes give errors. Exploration.",
+  "Trusts ref/rsm2. Coordinates >= p are treated as unspecified.",
+  "DESIGN.md §5 C13")
